@@ -175,34 +175,45 @@ def bounded_binds(B):
     return bounded
 
 def any_depth_bounded(f, comp):
+    """A recursive cycle is accepted when a depth counter travels around it: every member has one integer parameter `d`; every
+    call from a member to a member passes `d` or `d + 1` in the callee's depth position; at least one call steps by 1; and some
+    member tests `d` against a constant (leaving on the far side) before its calls into the cycle."""
+    hir = getattr(f, 'hir_all', f.hir)
+    INTS = ('usize', 'u32', 'u8', 'u16', 'u64', 'i32')
+    depth = {}
     for p in comp:
-        if p not in f.hir:
-            continue
-        B = hirq.Body(f, f.hir[p])
+        if p not in hir:
+            return False, 'recursion through %s, whose body is not available' % p
+        B = hirq.Body(f, hir[p])
+        ps = [(b, d) for b, d in B.defs.items() if d['kind'] == 'param' and (d['pat'].get('ty') or '') in INTS]
+        if len(ps) != 1:
+            return False, 'recursion on peer-controlled nesting without a depth bound (%s has no single integer depth parameter): stack overflow on deeply nested input' % p.rsplit('::', 1)[-1]
+        depth[p] = (B, ps[0][0], ps[0][1])
+    stepped = guarded = False
+    for p, (B, b, d) in depth.items():
         rec_calls = [n for n, c in walk(B.root) if n['k'] in ('Call', 'MethodCall') and (callee_of(n) in comp)]
-        if not rec_calls:
-            continue
-        params = [(b, d) for b, d in B.defs.items() if d['kind'] == 'param' and (d['pat'].get('ty') or '') in ('usize', 'u32', 'u8', 'u16', 'u64', 'i32')]
-        for b, d in params:
-            guards = []
-            for n, c in walk(B.root):
-                if n['k'] == 'If' and n['cond']['k'] == 'Binary' and n['cond']['op'] in ('Gt', 'Ge', 'Eq', 'Lt', 'Le'):
-                    l, r = n['cond']['l'], n['cond']['r']
-                    if (hirq.local_of(l) == b and hirq.const_eval(f, r) is not None) or (hirq.local_of(r) == b and hirq.const_eval(f, l) is not None):
-                        if hirq.diverges(n['then']) or (n.get('els') is not None and hirq.diverges(n['els'])):
-                            guards.append(n)
-            if not guards:
-                continue
-            ok_all = True
-            for rc in rec_calls:
-                args = call_args(rc)
-                idx = d['idx']
-                if idx >= len(args):
-                    ok_all = False; break
-                a = args[idx]
-                step = a['k'] == 'Binary' and a['op'] in ('Add', 'Sub') and hirq.local_of(a['l']) == b and hirq.const_eval(f, a['r']) == 1
-                if not step or not any(B.before(g, rc) for g in guards):
-                    ok_all = False; break
-            if ok_all:
-                return True, 'recursion bounded by depth parameter `%s`' % d['name']
+        guards = []
+        for n, c in walk(B.root):
+            if n['k'] == 'If' and n['cond']['k'] == 'Binary' and n['cond']['op'] in ('Gt', 'Ge', 'Eq', 'Lt', 'Le'):
+                l, r = n['cond']['l'], n['cond']['r']
+                if (hirq.local_of(l) == b and hirq.const_eval(f, r) is not None) or (hirq.local_of(r) == b and hirq.const_eval(f, l) is not None):
+                    if hirq.diverges(n['then']) or (n.get('els') is not None and hirq.diverges(n['els'])):
+                        guards.append(n)
+        for rc in rec_calls:
+            callee = callee_of(rc)
+            idx = depth[callee][2]['idx']
+            args = call_args(rc)
+            if idx >= len(args):
+                return False, 'recursive call does not pass the depth counter'
+            a = hirq.peel_refs(args[idx])
+            if hirq.local_of(a) == b:
+                pass
+            elif a['k'] == 'Binary' and a['op'] == 'Add' and hirq.local_of(a['l']) == b and hirq.const_eval(f, a['r']) == 1:
+                stepped = True
+            else:
+                return False, 'recursion on peer-controlled nesting: the depth counter is not passed on unchanged or stepped by 1 at %s' % loc(rc)
+            if guards and all(B.before(g, rc) for g in guards[:1]):
+                guarded = guarded or any(B.before(g, rc) for g in guards)
+    if stepped and guarded:
+        return True, 'recursion bounded by a depth counter compared with a constant'
     return False, 'recursion on peer-controlled nesting without a depth bound (no integer parameter compared with a constant before the recursive call and stepped by 1): stack overflow on deeply nested input'
